@@ -44,8 +44,16 @@ def run(rep):
         for h, r in failed:
             rep.violation("kani:sophia_api::" + h.name, kani_unit.describe_failure(r), witness=witness,
                           replay_text="./check C11 --replay <this file>   # replay_src/c11: views over Vec / FastDataset vs filtering the store", confirmed=confirmed)
+    # bounded native stand-in: the views over the REAL stores (FastDataset, Vec<Spog>, FastGraph, Vec<[T;3]>), incl. the
+    # default bulk methods inherited by the views (remove_matching / retain_matching are generic over matchers and
+    # stream through closures: outside Verus; the recording-store harnesses above have no state to retain from)
+    native.bounded_stand_in(rep, ID, "c11", [], "c11_views_over_real_stores",
+                            "union / partial-union / single-graph views vs filtering the store, term enumerations of the union graph and of graph-as-dataset, insert / remove / remove_matching / retain_matching through a mutable single-graph view change that graph only (flag / count as the direct operation), mutations through graph-as-dataset",
+                            "660 datasets: every set of <= 3 quads over 2 subjects x 2 objects x 3 graph names, on FastDataset and Vec<Spog>; 4 graph shapes incl. quoted triples and generalized RDF for the enumerations",
+                            "DatasetGraph / UnionGraph / PartialUnionGraph / GraphAsDataset incl. the MutableGraph / MutableDataset default methods they inherit (api/src/graph/adapter.rs, api/src/dataset/adapter.rs, api/src/graph.rs)",
+                            "./check C11 --replay <this file>   # replay_src/c11")
     rep.not_covered += ["quoted_triples() of the views; projections of PartialUnionGraph / DatasetGraph (inherited defaults computed from triples())", 
-                        "alternating histories through store and view on the real in-memory stores (only in the native replay)"]
+                        "longer alternating histories through store and view"]
     rep.notes.append("bounded: probe-based forwarding contracts; nothing proved for all matchers")
 
 
